@@ -24,7 +24,7 @@ def cfgOf (profile : String) : Gen.Cfg :=
 def emitCase (out : IO.FS.Stream) (verbose : Bool) (m : Profile) (id : String) (bs : Bytes)
     (outcomeOnly : Bool := false) : IO Unit := do
   out.putStrLn s!"CASE {id}"
-  let r := parse Zlib.inflate m bs
+  let r := parse ZlibT.inflate m bs
   if outcomeOnly then
     out.putStrLn (match r with
       | .ok _ => "load ok"
@@ -55,7 +55,7 @@ partial def loop (h : IO.FS.Stream) (out : IO.FS.Stream) (m : Profile) : IO Unit
         -- both sides of theorem C01.decode_encode on this very program: the semantic meaning
         -- (state machine over the items' meanings + validation) vs the parse of the encoded bytes
         let viaSem := Obs.load false m (Spec.semParse (Spec.headerSem p) (Spec.framesSem m p))
-        let viaParse := Obs.load false m (parse Zlib.inflate m bs)
+        let viaParse := Obs.load false m (parse ZlibT.inflate m bs)
         out.putStrLn s!"SEMCHECK {profile}-{seed}-{i} {if viaSem == viaParse then "same" else "MISMATCH"}"
       out.flush
       loop h out m
@@ -147,7 +147,7 @@ partial def loop (h : IO.FS.Stream) (out : IO.FS.Stream) (m : Profile) : IO Unit
       out.putStrLn s!"CASE {id}"
       match Obs.unhex file, Obs.unhex queries with
       | some fb, some qb =>
-          match parse Zlib.inflate m fb with
+          match parse ZlibT.inflate m fb with
           | .ok sp =>
               match sp.palette with
               | some pal =>
@@ -167,7 +167,7 @@ partial def loop (h : IO.FS.Stream) (out : IO.FS.Stream) (m : Profile) : IO Unit
       out.putStrLn s!"CASE {id}"
       match Obs.unhex file, Obs.unhex hx with
       | some fb, some pb =>
-          match parse Zlib.inflate m fb with
+          match parse ZlibT.inflate m fb with
           | .ok sp =>
               match sp.palette with
               | some pal =>
@@ -201,7 +201,7 @@ partial def loop (h : IO.FS.Stream) (out : IO.FS.Stream) (m : Profile) : IO Unit
           match evs with
           | none => out.putStrLn "bad-events"
           | some evs =>
-              let r := parseStream Zlib.inflate m ⟨bs, evs⟩
+              let r := parseStream ZlibT.inflate m ⟨bs, evs⟩
               for l in Obs.load false m r do
                 out.putStrLn l
       out.putStrLn "END"
@@ -221,7 +221,7 @@ partial def loop (h : IO.FS.Stream) (out : IO.FS.Stream) (m : Profile) : IO Unit
       match Obs.unhex hx with
       | none => out.putStrLn "bad-hex"
       | some bs =>
-          match Zlib.inflate bs with
+          match ZlibT.inflate bs with
           | .ok o => out.putStrLn s!"ok {Obs.hex o}"
           | .err (.io .unexpectedEof) => out.putStrLn "err io:UnexpectedEof"
           | .err (.io (.other c)) => out.putStrLn s!"err io:{c}"
